@@ -18,18 +18,25 @@ LEVEL = "other"
 SPLIT = ["b_o_Standing", "solution_gor_Standing"]
 
 
-def check(ctx):
+def check_split(ctx, rule_b, rule_c, names=None):
+    """array arm == scalar arm and the masks partition by the scalar predicate, for the correlations that split on the
+    bubble point (shared with C07: density x FVF has to hold per element for the array form of the oil FVF as well)"""
     P = ctx.P
-    ctx.assume(POSITIVE)
-    n = check_module_buffers(ctx, "C11-a", "bluebonnet.fluids.oil", floor=2)
-    check_module_buffers(ctx, "C11-a", "bluebonnet.fluids.water")
-    check_module_buffers(ctx, "C11-a", "bluebonnet.fluids.gas")
-
+    names = SPLIT if names is None else names
     # ---- C11-b/c array arm == scalar arm, masks partition by the scalar predicate
     PBQ = OIL + "pressure_bubblepoint_Standing"
-    for name in SPLIT:
+    for name in names:
         q = OIL + name
         f = P.func(q)
+        from .common import array_safe
+
+        ok_arr, why = array_safe(ctx, q, "pressure", opaque={PBQ})
+        if not ctx.check(
+            ok_arr, rule_c, q + ":array decisions", f.where(),
+            "on the array branch no decision (if / early return / and / or) depends on the pressure array: elements are selected by masks only (a test of the whole array - np.all, np.any, its end points - decides for all elements at once)",
+            signature="array decisions " + "; ".join(why)[:160], decisions=why[:6],
+        ):
+            continue
         sc = pressure_arms(ctx, q, opaque={PBQ})
         if len(sc) != 2 or any(len(k) != 1 for k in sc):
             raise AnalysisError(f"{q}: scalar branch is not a two-way split on one pressure predicate")
@@ -52,14 +59,14 @@ def check(ctx):
         covered = set()
         for mask, val in buf.parts:
             if not (isinstance(mask, BoolV) and mask.kind == "cmp"):
-                ctx.bad("C11-c", q + ":mask", f.where(), "array stores are selected by a comparison mask", signature="mask kind", mask=repr(mask))
+                ctx.bad(rule_c, q + ":mask", f.where(), "array stores are selected by a comparison mask", signature="mask kind", mask=repr(mask))
                 continue
             d = nf.key(nf.sub(mask.a, mask.b))
             arm = {">=": True, "<": False}.get(mask.op) if d == key[1] and key[0] == "ge" else None
             if arm is None and key[0] == "gt" and d == key[1]:
                 arm = {">": True, "<=": False}.get(mask.op)
             ctx.check(
-                arm is not None, "C11-c", q + f":mask {mask.op}", f.where(),
+                arm is not None, rule_c, q + f":mask {mask.op}", f.where(),
                 "each mask is the scalar branch predicate or its exact complement (same operands, >= / <)",
                 signature="mask predicate " + mask.op, mask=repr(mask)[:160],
             )
@@ -68,7 +75,7 @@ def check(ctx):
             covered.add(arm)
             sv = arms[arm]
             ctx.identity(
-                "C11-b", q + f":array value under {mask.op}", f.where(),
+                rule_b, q + f":array value under {mask.op}", f.where(),
                 "the value stored under the mask equals the scalar branch's value term-for-term (mask subscripts erased)",
                 ctx_nf(val), ctx_nf(sv),
             )
@@ -76,16 +83,26 @@ def check(ctx):
         if buf.fill is not None:
             for arm in sorted(rest):
                 ctx.identity(
-                    "C11-b", q + f":fill value for {'>=' if arm else '<'}", f.where(),
+                    rule_b, q + f":fill value for {'>=' if arm else '<'}", f.where(),
                     "elements not overwritten by a masked store keep the fill value, which equals the scalar branch's value there",
                     ctx_nf(buf.fill), ctx_nf(arms[arm]),
                 )
             rest = set()
         ctx.check(
-            not rest, "C11-c", q + ":masks cover the array", f.where(),
+            not rest, rule_c, q + ":masks cover the array", f.where(),
             "the masked stores cover both sides of the predicate: no element of an uninitialised buffer is left unwritten (the bubble point itself included)",
             signature="uncovered " + ",".join(">=" if a else "<" for a in sorted(rest)),
         )
+
+
+def check(ctx):
+    P = ctx.P
+    ctx.assume(POSITIVE)
+    n = check_module_buffers(ctx, "C11-a", "bluebonnet.fluids.oil", floor=2)
+    check_module_buffers(ctx, "C11-a", "bluebonnet.fluids.water")
+    check_module_buffers(ctx, "C11-a", "bluebonnet.fluids.gas")
+
+    check_split(ctx, "C11-b", "C11-c")
     # Spivey: vectorised arm == scalar arm
     q = OIL + "oil_compressibility_undersat_Spivey"
     f = P.func(q)
@@ -159,7 +176,7 @@ def check(ctx):
     from .dtypes import check_vectorize
 
     nv = check_vectorize(ctx, "C11-h", ["bluebonnet.fluids.oil", "bluebonnet.fluids.water", "bluebonnet.fluids.fluid"])
-    ctx.floor("C11-h", nv, 1, "np.vectorize call sites")
+    # no floor: a tree without np.vectorize has no first-element dtype hazard (the rule's own example is in the self-test)
     # ---- C11-e Fluid wrappers
     from .c19 import check_delegation
 
